@@ -173,6 +173,13 @@ def verify_tpm(
         TPM_ALG_COSE_ALG_MAP[pub_area.name_alg],
     )
 
+    # A Name is the nameAlg identifier followed by the digest: the identifier carried by the
+    # attested name must be pubArea's nameAlg, not merely some known algorithm
+    if cert_info.attested.name_alg != pub_area.name_alg:
+        raise InvalidRegistrationResponse(
+            "CertInfo attested name algorithm did not match PubArea nameAlg (TPM)"
+        )
+
     attested_name = b"".join(
         [
             cert_info.attested.name_alg_bytes,
